@@ -30,8 +30,10 @@ class IOPort(BaseIOPort):
     def _open(self, **kwargs):
         LOG.append(('IOPort', self.name, dict(kwargs)))
 '''
-DEVLIST = [('a', True, False), ('b', True, True), ('c', False, True), ('d', True, True), ('b', False, True),
-           ('e', True, False), ('f', False, True), ('e', False, True), ('g', False, True), ('g', True, False)]      # e, g: separate input and output entries
+DEVLIST = [('m', True, False), ('b', True, True), ('c', False, True), ('z', True, True), ('b', False, True),
+           ('e', True, False), ('f', False, True), ('e', False, True), ('g', False, True), ('g', True, False),
+           ('b', True, True), ('A', True, True), ('k', True, False)]
+# e, g: separate input and output entries; the system's order is not the alphabetical one; one name (b) stands for two devices
 DEVICES = '''
 def get_devices(**kwargs):
     LOG.append(('get_devices', None, dict(kwargs)))
@@ -283,6 +285,41 @@ def run(out):
                             out.failures.append(('set_backend', 'after the history %r the top-level functions do not use backend %r' % (hist, want),
                                                  {'component': 'set_backend', 'history': repr(hist)}))
                             break
+            # set_backend() without a name (what `import mido` itself does): MIDO_BACKEND decides, read at that moment; then the default
+            saved_env = os.environ.get('MIDO_BACKEND')
+            saved_default = mido.backends.backend.DEFAULT_BACKEND
+            try:
+                mido.backends.backend.DEFAULT_BACKEND = mb
+                for envval, want in ((ma + '/tok6', (ma, 'tok6')), (ma, (ma, None)), (None, (mb, None)), (mb + '/tok5', (mb, 'tok5'))):
+                    for call in ('set_backend()', 'set_backend(None)', 'set_backend(load=True)'):
+                        nh += 1
+                        if envval is None:
+                            os.environ.pop('MIDO_BACKEND', None)
+                        else:
+                            os.environ['MIDO_BACKEND'] = envval
+                        try:
+                            mido.set_backend(ma + '/other')          # something else first
+                            {'set_backend()': lambda: mido.set_backend(), 'set_backend(None)': lambda: mido.set_backend(None),
+                             'set_backend(load=True)': lambda: mido.set_backend(load=True)}[call]()
+                            mark = len(builtins._verif_backend_log)
+                            mido.open_output('y')
+                            ev = [e for e in builtins._verif_backend_log[mark:] if e[0] != 'import']
+                            ok = all(getattr(mido, k).__self__ is mido.backend for k in saved) and (mido.backend.name, mido.backend.api) == want \
+                                and len(ev) == 1 and ev[0][2].get('api') == want[1] and mido.backend.module.__name__ == want[0]
+                        except Exception as e:  # noqa: BLE001
+                            ok = False
+                            out.failures.append(('set_backend-environment', 'with MIDO_BACKEND=%r, mido.%s (then open_output) raised %r; expected the backend %r'
+                                                 % (envval, call, e, want), {'component': 'set_backend', 'MIDO_BACKEND': envval, 'call': call}))
+                            continue
+                        if not ok:
+                            out.failures.append(('set_backend-environment', 'with MIDO_BACKEND=%r, mido.%s binds the top-level functions to %r, expected %r'
+                                                 % (envval, call, (mido.backend.name, mido.backend.api), want), {'component': 'set_backend', 'MIDO_BACKEND': envval, 'call': call}))
+            finally:
+                mido.backends.backend.DEFAULT_BACKEND = saved_default
+                if saved_env is None:
+                    os.environ.pop('MIDO_BACKEND', None)
+                else:
+                    os.environ['MIDO_BACKEND'] = saved_env
             out.evaluations += nh
             out.components['set_backend histories (implementation against the property statement)'] = {'cases': nh}
         finally:
